@@ -8,7 +8,7 @@ from .ty import parse_type, Ty, NONE
 
 class ClassDecl:
     def __init__(self, name, target=None, bases=(), fields=None, consts=None, invariant=(), eq=None,
-                 truthy=None, exception=False, value_semantics=False):
+                 truthy=None, exception=False, value_semantics=False, dynamic=()):
         self.name = name
         self.target = target            # 'module:QualName' in /repo, or None for builtins/externals
         self.bases = list(bases)
@@ -18,6 +18,7 @@ class ClassDecl:
         self.eq = eq                       # None: identity; else spec string over (self, other)
         self.truthy = truthy               # None: always true; else spec string over self
         self.exception = exception
+        self.dynamic = set(dynamic)        # opt-typed fields that model attributes which may be ABSENT (None = absent): hasattr/getattr-with-default
         self.cid = None
 
 
